@@ -253,6 +253,23 @@ def run_sub_shard(task):
     return res
 
 
+def freeze_hypothesis_constants():
+    """Hypothesis (>= 6.13x) biases generation towards constants it harvests from the source of every *local* module in
+    sys.modules, and re-harvests whenever len(sys.modules) changes. The library under test imports modules lazily (some
+    from pyarrow/dask worker threads), so WHEN the pool of constants grows relative to the draws depends on timing: the
+    same seed then yields slightly different cases from run to run (measured: 2 of 12 identical invocations under load).
+    A run must be a pure function of (code, VERIF_SEED), so the harvest is switched off: only Hypothesis' fixed global
+    constants are used."""
+    try:
+        from hypothesis.internal.conjecture import providers
+        frozen = providers._local_constants          # module-level object, still empty before the first harvest
+        if any(len(v) for v in vars(frozen).values()):
+            return                                   # already harvested in this process: too late to freeze
+        providers._get_local_constants = lambda: frozen
+    except Exception:  # noqa: BLE001 - other Hypothesis versions: nothing to freeze
+        pass
+
+
 def _hyp_settings(examples, shrink=False):
     from hypothesis import HealthCheck, Phase, settings
     phases = [Phase.generate, Phase.shrink] if shrink else [Phase.generate]
@@ -265,6 +282,7 @@ def _hyp_settings(examples, shrink=False):
 
 def run_hyp_shard(mod, task):
     from hypothesis import given, seed as hseed
+    freeze_hypothesis_constants()
     res = new_result()
     strat = mod.strategy(task['tier'])
     sseed = task['seed']
@@ -366,6 +384,7 @@ def run_stateful_shard(mod, task):
     from hypothesis import seed as hseed
     from hypothesis.stateful import run_state_machine_as_test
     from hypothesis import HealthCheck, Phase, settings
+    freeze_hypothesis_constants()
     res = new_result()
     findings = Findings(task['prop'])
     classes = mod.machines(task['tier'], res, task['seed'])
@@ -425,7 +444,10 @@ def run(prop, tier, seed):
             results.append(worker(t))
     else:
         ctx = mp.get_context('spawn')
-        with ctx.Pool(nproc, maxtasksperchild=budget.get('maxtasksperchild')) as pool:
+        # one task per worker process: Hypothesis keeps process-global state between test runs, so a shard's cases would
+        # otherwise depend on which shards happened to run earlier in the same worker (measured); with a fresh process per
+        # task a run is a pure function of (code, VERIF_SEED, tier). The price is one JIT warm-up per task.
+        with ctx.Pool(nproc, maxtasksperchild=budget.get('maxtasksperchild', 1)) as pool:
             for r in pool.imap_unordered(worker, tasks, chunksize=1):
                 results.append(r)
 
